@@ -425,13 +425,40 @@ def rule_iterator_contract(ctx, rid):
         ctx.paths += 1
         if e.kind != 'return':
             continue
-        kind = None
+        # the kinds of input this path serves: the isinstance tests of the path (positive and negative, single
+        # types and tuples of types) narrow {label vector, Cycles, iterator, anything else}
+        KINDS = {('ref', 'numpy.ndarray'), ('ref', 'emd.cycles.Cycles'), ('ref', IT)}
+        live = set(KINDS) | {'other'}
         for cd, tr, ln in e.state.conds:
-            if cd[0] == 'call' and cd[1] == 'builtins.isinstance' and tr and len(cd[2]) == 2 and cd[2][0] == S('invar'):
-                kind = cd[2][1]
+            if cd[0] == 'call' and cd[1] == 'builtins.isinstance' and len(cd[2]) == 2 and cd[2][0] == S('invar'):
+                tys = set(cd[2][1][1]) if cd[2][1][0] == 'tuple' else {cd[2][1]}
+                if not tys <= KINDS:
+                    live = None
+                    break
+                live = (live & tys) if tr else (live - tys)
+        if live is None:
+            continue
         v = e.value
+        for kind in sorted(live - {'other'}):
+            bad = _ensure_kind(kind, v, IT)
+            if bad:
+                break
+            seen.add({('ref', 'numpy.ndarray'): 'vector', ('ref', 'emd.cycles.Cycles'): 'object', ('ref', IT): 'iterator'}[kind])
+        if bad:
+            break
+    if bad:
+        ctx.violation(rid, fi, c, bad)
+    elif seen != {'vector', 'object', 'iterator'}:
+        ctx.undecided(rid, fi, c, 'input kinds recognised: %s' % sorted(seen))
+    else:
+        ctx.passed(rid, fi, c, 'vector / Cycles / iterator inputs')
+    _iterator_rest(ctx, rid, IT, sa)
+
+
+def _ensure_kind(kind, v, IT):
+    bad = None
+    for _once in (1,):
         if kind == ('ref', 'numpy.ndarray'):
-            seen.add('vector')
             if not (v[0] == 'call' and v[1] == IT):
                 bad = 'a label vector is turned into %s' % show(v)[:60]
                 break
@@ -448,22 +475,19 @@ def rule_iterator_contract(ctx, rid):
                     '%s=%s' % (k, show(kw[k])) for k in ('iter_through', 'mode', 'valids') if k in kw)
                 break
         elif kind == ('ref', 'emd.cycles.Cycles'):
-            seen.add('object')
             if not (v[0] == 'meth' and v[1] == 'iterate' and v[2] == S('invar') and not v[3] and not v[4]):
                 if not (v[0] == 'call' and v[1] == 'emd.cycles.Cycles.iterate'):
                     bad = 'a Cycles object is turned into %s' % show(v)[:60]
                     break
         elif kind == ('ref', IT):
-            seen.add('iterator')
             if v != S('invar'):
                 bad = 'an iterator is replaced by %s' % show(v)[:60]
                 break
-    if bad:
-        ctx.violation(rid, fi, c, bad)
-    elif seen != {'vector', 'object', 'iterator'}:
-        ctx.undecided(rid, fi, c, 'input kinds recognised: %s' % sorted(seen))
-    else:
-        ctx.passed(rid, fi, c, '3 input kinds')
+    return bad
+
+
+def _iterator_rest(ctx, rid, IT, sa):
+    P = ctx.P
     # ---- Cycles.iterate: built over the object's own vectors
     fi = P.func('emd.cycles.Cycles.iterate')
     c = "the container's iterator runs over the container's own label vector and phase"
